@@ -90,10 +90,8 @@ theorem resolve_snoc (cwd : List Name) (p : Path) (c : Comp) :
     resolve cwd (p ++ [c]) = resolveStep (resolve cwd p) c := by
   simp [resolve, List.foldl_append]
 
-/-- one loop iteration keeps the denotation of `ret` in step with the prefix read so far,
-unless it pops a root -/
-theorem resolve_step (k : Bool) (cwd : List Name) (st : List Comp) (c : Comp)
-    (h : ¬ (c = .parent ∧ st.head? = some .root)) :
+/-- one loop iteration keeps the denotation of `ret` in step with the prefix read so far -/
+theorem resolve_step (k : Bool) (cwd : List Name) (st : List Comp) (c : Comp) :
     resolve cwd (normStep k st c).reverse = resolveStep (resolve cwd st.reverse) c := by
   cases c with
   | root => simp [normStep, resolve_snoc]
@@ -107,31 +105,23 @@ theorem resolve_step (k : Bool) (cwd : List Name) (st : List Comp) (c : Comp)
     | nil => simp [normStep, resolve, resolveStep]
     | cons a t =>
       cases a with
-      | root => simp at h
+      | root => simp [normStep, resolve_snoc, resolveStep]
       | normal s => simp [normStep, resolve_snoc, resolveStep]
       | parent => simp [normStep, resolve, List.foldl_append]
       | cur => simp [normStep, resolve_snoc, resolveStep]
 
 theorem resolve_foldl (k : Bool) (cwd : List Name) (p : Path) :
-    ∀ st, rootPopFree k st p = true →
-      resolve cwd (p.foldl (normStep k) st).reverse = resolve (resolve cwd st.reverse) p := by
+    ∀ st, resolve cwd (p.foldl (normStep k) st).reverse = resolve (resolve cwd st.reverse) p := by
   induction p with
-  | nil => intro st _; simp [resolve]
+  | nil => intro st; simp [resolve]
   | cons c cs ih =>
-    intro st h
-    simp only [rootPopFree, Bool.and_eq_true, Bool.not_eq_eq_eq_not, Bool.not_true,
-      Bool.and_eq_false_imp, beq_iff_eq] at h
-    have h1 : ¬ (c = .parent ∧ st.head? = some .root) := by
-      intro ⟨a, b⟩
-      have := h.1 a
-      simp [b] at this
-    rw [List.foldl_cons, ih _ h.2, resolve_step k cwd st c h1]
+    intro st
+    rw [List.foldl_cons, ih, resolve_step k cwd st c]
     simp [resolve]
 
-/-! ### normalize: the root survives unless popped -/
+/-! ### normalize: the root survives -/
 
-theorem last_root_step (k : Bool) (st : List Comp) (c : Comp)
-    (h : ¬ (c = .parent ∧ st.head? = some .root)) (hl : st.getLast? = some .root) :
+theorem last_root_step (k : Bool) (st : List Comp) (c : Comp) (hl : st.getLast? = some .root) :
     (normStep k st c).getLast? = some .root := by
   cases st with
   | nil => simp at hl
@@ -142,7 +132,7 @@ theorem last_root_step (k : Bool) (st : List Comp) (c : Comp)
     | cur => simpa [normStep] using hl
     | parent =>
       cases a with
-      | root => simp at h
+      | root => simpa [normStep] using hl
       | parent => simpa [normStep, List.getLast?_cons_cons] using hl
       | normal s =>
         cases t with
@@ -154,19 +144,10 @@ theorem last_root_step (k : Bool) (st : List Comp) (c : Comp)
         | cons b u => simpa [normStep, List.getLast?_cons_cons] using hl
 
 theorem last_root_foldl (k : Bool) (p : Path) :
-    ∀ st, rootPopFree k st p = true → st.getLast? = some .root →
-      (p.foldl (normStep k) st).getLast? = some .root := by
+    ∀ st, st.getLast? = some .root → (p.foldl (normStep k) st).getLast? = some .root := by
   induction p with
-  | nil => intro st _ hl; simpa using hl
-  | cons c cs ih =>
-    intro st h hl
-    simp only [rootPopFree, Bool.and_eq_true, Bool.not_eq_eq_eq_not, Bool.not_true,
-      Bool.and_eq_false_imp, beq_iff_eq] at h
-    have h1 : ¬ (c = .parent ∧ st.head? = some .root) := by
-      intro ⟨a, b⟩
-      have := h.1 a
-      simp [b] at this
-    exact ih _ h.2 (last_root_step k st c h1 hl)
+  | nil => intro st hl; simpa using hl
+  | cons c cs ih => intro st hl; exact ih _ (last_root_step k st c hl)
 
 /-! ### diff_paths on plain paths (names only) -/
 
@@ -324,47 +305,5 @@ theorem reparse_noRootCur (p : Path) (h : noRootCur p = true) : reparse p = p :=
       simp only [noRootCur, List.all_cons, Bool.and_eq_true] at h
       exact h.2
     simp [reparse, dropCur_noRootCur cs this]
-
-def noRoot (p : Path) : Bool := p.all (· != .root)
-
-theorem noRoot_step (k : Bool) (st : List Comp) (c : Comp) (hs : noRoot st = true) (hc : c ≠ .root) :
-    noRoot (normStep k st c) = true := by
-  cases c with
-  | root => exact absurd rfl hc
-  | normal s => simpa [normStep, noRoot] using hs
-  | cur =>
-    cases st with
-    | nil => cases k <;> simp [normStep, noRoot]
-    | cons a t => simpa [normStep] using hs
-  | parent =>
-    cases st with
-    | nil => simp [normStep, noRoot]
-    | cons a t =>
-      cases a <;> simp_all [normStep, noRoot]
-
-/-- a path without `RootDir` never pops one -/
-theorem rootPopFree_of_noRoot (k : Bool) : ∀ (p : Path) (st : List Comp),
-    noRoot st = true → noRoot p = true → rootPopFree k st p = true := by
-  intro p
-  induction p with
-  | nil => intro st _ _; rfl
-  | cons c cs ih =>
-    intro st hs hp
-    have hc : c ≠ .root := by
-      intro e; subst e; simp [noRoot] at hp
-    have hcs : noRoot cs = true := by
-      simp only [noRoot, List.all_cons, Bool.and_eq_true] at hp
-      exact hp.2
-    have hhead : st.head? ≠ some .root := by
-      cases st with
-      | nil => simp
-      | cons a t =>
-        intro e
-        have : a = .root := by simpa using e
-        subst this
-        simp [noRoot] at hs
-    simp only [rootPopFree, Bool.and_eq_true, Bool.not_eq_eq_eq_not, Bool.not_true,
-      Bool.and_eq_false_imp, beq_iff_eq]
-    refine ⟨fun _ => by simpa using hhead, ih _ (noRoot_step k st c hs hc) hcs⟩
 
 end DarkluaModel.C15
